@@ -13,7 +13,7 @@ use swc_core::ecma::{
     ast::*,
     atoms::Atom,
     codegen::{text_writer::JsWriter, Config as CgConfig, Emitter as CgEmitter},
-    parser::{parse_file_as_module, EsSyntax, Syntax, TsSyntax},
+    parser::{parse_file_as_module, parse_file_as_script, EsSyntax, Syntax, TsSyntax},
     transforms::base::resolver,
     visit::{visit_mut_pass, Visit, VisitWith},
 };
@@ -84,7 +84,7 @@ pub struct ParseError(pub String);
 
 /// Runs inside `GLOBALS.set` on the calling thread. Yields (through `seams::yield_point`)
 /// between phases; everything in between that can yield is a hook inside the pass or a seam.
-pub fn run_file(env: Env<'_>, src: &str, ts: bool, opts: Options, noise: &Noise) -> Result<Output, ParseError> {
+pub fn run_file(env: Env<'_>, src: &str, ts: bool, script: bool, opts: Options, noise: &Noise) -> Result<Output, ParseError> {
     seams::set_phase(Phase::Setup);
     for i in 0..noise.pad_files {
         env.cm.new_source_file(FileName::Custom(format!("pad{i}")).into(), " ".repeat(1 + (noise.seed as usize + i as usize * 7) % 97));
@@ -135,8 +135,12 @@ pub fn run_file(env: Env<'_>, src: &str, ts: bool, opts: Options, noise: &Noise)
             Syntax::Es(EsSyntax { jsx: true, ..Default::default() })
         };
         let mut errs = vec![];
-        let module = parse_file_as_module(&fm, syntax, Default::default(), comments.as_ref().map(|c| c as &dyn swc_core::common::comments::Comments), &mut errs)
-            .map_err(|e| ParseError(format!("{:?}", e.kind())))?;
+        let c = comments.as_ref().map(|c| c as &dyn swc_core::common::comments::Comments);
+        let mut program = if script {
+            Program::Script(parse_file_as_script(&fm, syntax, Default::default(), c, &mut errs).map_err(|e| ParseError(format!("{:?}", e.kind())))?)
+        } else {
+            Program::Module(parse_file_as_module(&fm, syntax, Default::default(), c, &mut errs).map_err(|e| ParseError(format!("{:?}", e.kind())))?)
+        };
         seams::yield_point("phase.parsed");
 
         seams::set_phase(Phase::Resolve);
@@ -146,7 +150,6 @@ pub fn run_file(env: Env<'_>, src: &str, ts: bool, opts: Options, noise: &Noise)
         }
         let unresolved_mark = Mark::new();
         let top_level_mark = Mark::new();
-        let mut program = Program::Module(module);
         program.mutate(resolver(unresolved_mark, top_level_mark, ts));
         seams::yield_point("phase.resolved");
 
